@@ -485,16 +485,17 @@ func isValueObjectMember(p *spec.Prop, env *Env) (*spec.Spec, *Env, bool) {
 	return o, oenv, true
 }
 
-// reachesByValue tells if target can be reached from the object through object members that are there whenever the
-// object is: by-value members and members with a declared default.
-func reachesByValue(from *spec.Spec, env *Env, target *spec.Spec, seen map[*spec.Spec]bool) bool {
-	if from == target {
+// leadsIntoLoop tells if following the object members that are there whenever the object is (by-value members and
+// members with a declared default) leads from the object into a loop of objects.
+func leadsIntoLoop(from *spec.Spec, env *Env, onPath map[*spec.Spec]bool, loopFree map[*spec.Spec]bool) bool {
+	if onPath[from] {
 		return true
 	}
-	if seen[from] {
+	if loopFree[from] {
 		return false
 	}
-	seen[from] = true
+	onPath[from] = true
+	defer delete(onPath, from)
 	for i := range from.Props {
 		p := &from.Props[i]
 		sub, senv, ok := isValueObjectMember(p, env)
@@ -502,11 +503,17 @@ func reachesByValue(from *spec.Spec, env *Env, target *spec.Spec, seen map[*spec
 			sub, senv = Resolve(p.Type, env)
 			ok = sub != nil
 		}
-		if ok && reachesByValue(sub, senv, target, seen) {
+		if ok && leadsIntoLoop(sub, senv, onPath, loopFree) {
 			return true
 		}
 	}
+	loopFree[from] = true
 	return false
+}
+
+// reachesByValue: a member that is part of, or leads into, a loop of always-present members stays absent.
+func reachesByValue(from *spec.Spec, env *Env, _ *spec.Spec, _ map[*spec.Spec]bool) bool {
+	return leadsIntoLoop(from, env, map[*spec.Spec]bool{}, map[*spec.Spec]bool{})
 }
 
 // SubDefaults computes what an absent by-value object member is materialised from: the defaults of its
